@@ -139,6 +139,8 @@ type frame struct {
 	rets    []retSite
 	closures map[ssa.Value]*ssa.MakeClosure
 	unescaped map[*ssa.Alloc]bool
+	noUndef   bool
+	effectsOnly bool
 	loadedFrom map[ssa.Value]*loadedFrom
 	loopEntry  map[int]*State
 	idom    map[*ssa.BasicBlock]*ssa.BasicBlock
@@ -965,6 +967,45 @@ func (fr *frame) resolveName(name string, b *ssa.BasicBlock, atEnd bool, st *Sta
 	for d := fr.idom[b]; d != nil; d = fr.idom[d] {
 		if tv, ok := scan(d, true); ok {
 			return tv, true
+		}
+	}
+	// a local that is not defined on the way to this point: an arbitrary value of its type (the clause must hold for any)
+	isParam := false
+	for _, p := range fr.fn.Params {
+		if p.Name() == name {
+			isParam = true
+		}
+	}
+	for _, p := range fr.fn.FreeVars {
+		if p.Name() == name {
+			isParam = true
+		}
+	}
+	if !fr.noUndef && !isParam {
+		for _, blk := range fr.fn.Blocks {
+			for _, in := range blk.Instrs {
+				if dr, ok := in.(*ssa.DebugRef); ok {
+					if id, ok := dr.Expr.(*ast.Ident); ok && id.Name == name {
+						T := dr.X.Type()
+						if dr.IsAddr {
+							T = T.(*types.Pointer).Elem()
+						}
+						// named results keep the zero-value rule below
+						isRes := false
+						rs := fr.fn.Signature.Results()
+						for i := 0; i < rs.Len(); i++ {
+							if rs.At(i).Name() == name {
+								isRes = true
+							}
+						}
+						if isRes {
+							continue
+						}
+						c := fc.declare(fr.prefix+"undef_"+mangle(name), fc.P.SortOf(T))
+						return TV{c, fc.P.SortOf(T), T}, true
+					}
+				}
+			}
 		}
 	}
 	// a named result that has not been assigned yet holds its zero value
